@@ -48,6 +48,9 @@ func VH_C03a() {
 	}
 	var m PrefixMatch
 	got := p.Match(key, &m)
+	vsym.Observe("matched", got)
+	vsym.Observe("common", m.CommonPrefix)
+	vsym.Observe("part", m.MatchedPart)
 	ok, common, cp := vhSpecMatch(key, prefix, hasDelim, delim)
 	vsym.Assert(got == ok, "C03a/matches-iff-has-prefix")
 	if got && ok {
